@@ -200,6 +200,39 @@ def run(ck):
                 ck.violation("C13: remove_all followed a link that was swapped in while it ran (targets outside were touched)",
                              {"job": J.describe({"op": sby[jid_]["op"]}), "attack": sby[jid_]["attack_desc"], "resolver": "emulated" if deny else "openat2",
                               "outcome": res.get("res"), "attack_log": res.get("attack_log"), "touched": probs[:10]})
+    # ---- a competing remover finishes first, at every system-call boundary: the call still reports success and the path is gone
+    cbase = [{"id": 1, "tree": stree, "op": {"k": "remove_all", "path": H("d")}, "snap": "all", "target": "root/d"},
+             {"id": 2, "tree": stree, "op": {"k": "remove_all", "path": H("a/b")}, "snap": "all", "target": "root/a/b"},
+             {"id": 3, "tree": stree, "op": {"k": "remove_all", "path": H("l/c")}, "snap": "all", "target": "root/a/b/c"}]
+    for deny in (("openat2",), ()):
+        tag = ",".join(deny) or "none"
+        _, bl, _ = run_driver_parallel(cbase, deny=deny, tag="c13cb" + tag, shards=3)
+        cj = []
+        for bj in cbase:
+            b0 = bl.get(bj["id"])
+            if not b0 or "trace" not in b0:
+                continue
+            for k in S.boundaries(b0["trace"]):
+                j = dict(bj)
+                j["id"] = 1000 + len(cj)
+                j["policy"] = {"attack": [{"at": k, "ops": [["rmtree", H(bj["target"])]]}]}
+                j["trace"] = False
+                j["at"] = k
+                cj.append(j)
+        cby = {j["id"]: j for j in cj}
+        _, cres, _ = run_driver_parallel(cj, deny=deny, tag="c13c" + tag)
+        for jid_, res in cres.items():
+            job = cby[jid_]
+            r = res.get("res", {})
+            if not res.get("attack_log") or "setup_err" in r:
+                continue
+            stats["competing"] = stats.get("competing", 0) + 1
+            still = any(unhex(e[0]) == job["target"].encode() for e in (res.get("snap_after") or []))
+            if "unit" not in r or still:
+                ck.violation("C13: remove_all did not report success (or left the path behind) when a competing remover of the same path finished first",
+                             {"job": J.describe({"op": job["op"]}), "competing_remover_ran_before_call": job["at"], "resolver": "emulated" if deny else "openat2",
+                              "outcome": r, "path_still_there": still})
+            nontrivial.add(("competing", job["target"], job["at"], tag))
     if not ck.proof_broken:
         evals, cerrs = coq_eval([(c[0], c[1]) for c in cases], header="From PV Require Import Replay.", tag="c13")
         if cerrs:
@@ -223,7 +256,7 @@ def run(ck):
                 "and races; distinct by (path, subtree size, backend)",
         "samples": samples or [{"note": "none"}],
         "successful_removals": stats["removed_ok"], "failed_calls": stats["refused"], "dot_paths_refused": stats["dots"],
-        "racing_groups": stats["races"], "runs_with_a_link_swapped_in": stats.get("swapped_in", 0), "subtree_size_histogram": stats["subtree_sizes"],
+        "racing_groups": stats["races"], "runs_with_a_link_swapped_in": stats.get("swapped_in", 0), "runs_with_a_competing_remover": stats.get("competing", 0), "subtree_size_histogram": stats["subtree_sizes"],
         "traces_validated_against_impl": stats["t1_ok"], "t1_mismatches": stats["t1_bad"], "disagreements_checked": stats["t1_bad"],
     }
     assumptions = ["races use the real scheduler (threads released by a barrier), not an exhaustive enumeration of interleavings",
